@@ -6,6 +6,7 @@ SPEC = {
         "shims": {"session": "internal/protocol/session"},
         "runs": [{"args": [], "corpus": ""}],
     },
+    "skip_model_prefix": ["x "],
     "rule": ("one case = one command packet sent through the real SessionManager.HandlePacket (special cases of handleCommandPacket, "
              "then the real CommandExecutor/CommandRegistry with every handler of internal/command and internal/app/server) into a fresh "
              "real in-memory server stack (memory storage, built-in cloud control, connection-code/port-mapping services, HTTP domain "
@@ -29,6 +30,9 @@ SPEC = {
         "reply-class packets (DNSResolve/DNSQuery/HTTPProxyResponse with packet type CommandResp) are modelled with no request pending: "
         "that any connection may answer a pending forwarded request by guessing its command id is NOT covered (would need per-request "
         "binding of the answering connection; out of the model's scope)",
+        "default DNS target (target_client_id <= 0) when the sender has active SOCKS mappings to several different targets: the "
+        "implementation picks whichever Go's map iteration meets first; the model has a ghost `pick` (theorems quantify over it), the "
+        "harness marks such cases `x` and judges them by the predicate only (counted as excluded-point in the distribution)",
         "quota branches (10 active codes, 50 active mappings per client) and expiry of codes/mappings are not modelled; generated worlds stay below them",
         "cross-node paths (bridgeManager broadcast, handleDNSQueryCrossNode with a connection-state store) are nil in the harness: target offline = refused",
         "handleDefaultCommand (executor nil) is not driven: the server always installs the executor (setupConnectionCodeCommands)",
